@@ -205,3 +205,48 @@ End Values.
 Arguments a_sh {E V} _.
 Arguments a_at {E V} _ _ _ _.
 Arguments Build_arr {E V} _ _.
+
+(** * The working dtype (BlockAssembler.__init__: [_find_common_type] of the dtypes of
+    all present blocks = np.result_type; extract: a floating fill value upgrades it).
+    np.result_type over several array dtypes is not the pairwise reduction of
+    np.promote_types (int16, uint16, float32 -> float32, but pairwise float64); it is
+    determined by the widest unsigned / signed / floating member. *)
+Inductive dtype := DU (bits : Z) | DI (bits : Z) | DF (bits : Z).
+
+Record dsum := { s_ub : Z; s_sb : Z; s_fb : Z }.    (* 0 = no member of that kind *)
+
+Definition dsum_add (s : dsum) (d : dtype) : dsum :=
+  match d with
+  | DU b => {| s_ub := Z.max (s_ub s) b; s_sb := s_sb s; s_fb := s_fb s |}
+  | DI b => {| s_ub := s_ub s; s_sb := Z.max (s_sb s) b; s_fb := s_fb s |}
+  | DF b => {| s_ub := s_ub s; s_sb := s_sb s; s_fb := Z.max (s_fb s) b |}
+  end.
+
+Definition dsum_of (dts : list dtype) : dsum :=
+  fold_left dsum_add dts {| s_ub := 0; s_sb := 0; s_fb := 0 |}.
+
+Definition dsum_result (s : dsum) : dtype :=
+  if 0 <? s_fb s then
+    (if 16 <? Z.max (s_ub s) (s_sb s) then DF 64 else DF (s_fb s))
+  else if s_sb s =? 0 then DU (s_ub s)
+  else if s_ub s =? 0 then DI (s_sb s)
+  else if s_ub s <? s_sb s then DI (s_sb s)
+  else if s_ub s <? 64 then DI (2 * s_ub s)
+  else DF 64.
+
+(** BlockAssembler.__init__: float32 without blocks, else the common type *)
+Definition ba_dtype (dts : list dtype) : dtype :=
+  match dts with
+  | [] => DF 32
+  | _ => dsum_result (dsum_of dts)
+  end.
+
+Inductive fill_kind := FillNone | FillInt | FillFloat.
+
+(** extract(fill_value, dtype=None): a floating fill value contributes its kind *)
+Definition ba_extract_dtype (d : dtype) (f : fill_kind) : dtype :=
+  match f, d with
+  | FillFloat, DF b => DF b
+  | FillFloat, _ => DF 64
+  | _, _ => d
+  end.
